@@ -457,7 +457,7 @@ static hwloc_topology_t A, B;
 static void need_B(void) { if (!B && A) hwloc_topology_dup(&B, A); }
 
 /* export/load of a list as XML: buffer and file variants, with a refname */
-static void xml_roundtrip(hwloc_topology_diff_t diff)
+static void xml_roundtrip(hwloc_topology_diff_t diff, int with_apply)
 {
   static const char *refname = "ref<&\"1>.xml";
   hwloc_topology_diff_t xd = NULL; char *buf = NULL, *ref = NULL; int len = 0, r;
@@ -473,6 +473,16 @@ static void xml_roundtrip(hwloc_topology_diff_t diff)
   printf("xml export=0 len=%d strlen=%lu", len, (unsigned long)strnlen(buf, (size_t)(len > 0 ? len : 0)) + 1);
   r = hwloc_topology_diff_load_xmlbuffer(buf, len, &xd, &ref);
   printf(" load=%d same=%d n=%u ref=", r, r < 0 ? 0 : diff_same(diff, xd), r < 0 ? 0 : diff_len(xd)); hx(r < 0 ? NULL : ref);
+  if (r == 0 && with_apply) {
+    /* the reloaded list applied to a copy of A must give B, and A back in reverse */
+    hwloc_topology_t P = NULL; hwloc_topology_diff_t d2 = NULL; int r2;
+    hwloc_topology_dup(&P, A);
+    r2 = hwloc_topology_diff_apply(P, xd, 0); printf(" xapply=%d", r2);
+    r2 = hwloc_topology_diff_build(P, B, 0, &d2); printf(" xrebuild=%d/%u", r2, diff_len(d2)); hwloc_topology_diff_destroy(d2); d2 = NULL;
+    r2 = hwloc_topology_diff_apply(P, xd, HWLOC_TOPOLOGY_DIFF_APPLY_REVERSE); printf(" xunapply=%d", r2);
+    r2 = hwloc_topology_diff_build(P, A, 0, &d2); printf(" xback=%d/%u", r2, diff_len(d2)); hwloc_topology_diff_destroy(d2);
+    hwloc_topology_destroy(P);
+  }
   free(ref); ref = NULL; hwloc_topology_diff_destroy(xd); xd = NULL;
   fd = mkstemp(path);
   if (fd >= 0) {
@@ -528,7 +538,7 @@ static void do_build(void)
     r2 = hwloc_topology_diff_apply(P, diff, HWLOC_TOPOLOGY_DIFF_APPLY_REVERSE);
     printf("unapply %d\n", r2); dump_state("P2", P); fflush(stdout);
     hwloc_topology_destroy(P);
-    xml_roundtrip(diff);
+    xml_roundtrip(diff, 1);
     fflush(stdout);
   }
   hwloc_topology_diff_destroy(diff);
@@ -623,7 +633,7 @@ static int run_case(FILE *in)
       }
       printf("xmlhand %u\n", cnt);
       fflush(stdout);
-      xml_roundtrip(first);
+      xml_roundtrip(first, 0);
       hwloc_topology_diff_destroy(first);
     }
     else if (!strncmp(line, "topo ", 5)) {
